@@ -97,6 +97,10 @@ type reqSpec struct {
 	Clen  int    `json:"clen"`
 	Clh   string `json:"clh"`
 	Conds []int  `json:"conds"`
+	// outside the specification's string projection (non-UTF-8, very long, ...): only totality is judged;
+	// Path then holds the percent-escaped form, Raw the bytes that are sent
+	Opaque bool   `json:"opaque"`
+	Raw    string `json:"-"`
 	// not part of the routing projection
 	Hdr  map[string]string `json:"-"`
 	Body []byte            `json:"-"`
